@@ -133,3 +133,27 @@ func pathKey(p []int) string {
 	}
 	return sb.String()
 }
+
+// CopyVal is a deep copy of a value.
+func CopyVal(v Val) Val { return copyVal(v) }
+
+// SameVal: structural identity of two values (aggregates element-wise, atoms by identity or printed form).
+func SameVal(a, b Val) bool {
+	x, okx := a.(*Agg)
+	y, oky := b.(*Agg)
+	if okx != oky {
+		return false
+	}
+	if okx {
+		if len(x.Elems) != len(y.Elems) {
+			return false
+		}
+		for i := range x.Elems {
+			if !SameVal(x.Elems[i], y.Elems[i]) {
+				return false
+			}
+		}
+		return true
+	}
+	return a == b || fmt.Sprint(a) == fmt.Sprint(b)
+}
